@@ -218,7 +218,7 @@ def witness : List Event :=
   let pr (n : Nat) (wip : Bool) (d : ReviewDecision) (cs : List Check) : PRSnap :=
     { number := n, headSha := 500, authorized := true,
       labels := { highPrio := false, wip := wip, stacked := false, doNotTest := false, other := false }, decision := d, checks := cs }
-  let ci (s : RawState) : List Check := [{ ctx := 0, required := true, state := s }]
+  let ci (s : RawState) : List Check := [{ ctx := 0, required := true, state := some s }]
   [ .github { targetSha := 100, prs := [pr 1 false .REVIEW_REQUIRED []] }, .batch, .heal ⟨[true], []⟩,   -- PR 1 builds: batch 1 (500 on 100)
     .done 1 true, .batch, .heal ⟨[], []⟩,                                                                 -- batch 1 succeeds
     .github { targetSha := 100, prs := [pr 1 false .REVIEW_REQUIRED (ci .SUCCESS), pr 2 true .APPROVED (ci .SUCCESS)] },
@@ -299,9 +299,20 @@ def movedSnap : Snapshot :=
   { targetSha := 101,
     prs := [{ number := 7, headSha := 500, authorized := true,
               labels := { highPrio := false, wip := false, stacked := false, doNotTest := false, other := false },
-              decision := .APPROVED, checks := [{ ctx := 0, required := true, state := .SUCCESS }] }] }
+              decision := .APPROVED, checks := [{ ctx := 0, required := true, state := some .SUCCESS }] }] }
 example : (evHeal (evGithub (evHeal (run true init plain).1 ⟨[], [false]⟩).1 movedSnap) ⟨[true], []⟩).2
     = [.start 7 2 500 101, .assertFailed 7] := by decide +kernel
+-- a REQUIRED check run that is still in progress (conclusion null) makes the refresh raise (`github_status(None)`): the PR keeps its
+-- old statuses, `github_changed` stays set, and nothing is merged on that refresh
+def nullSnap : Snapshot :=
+  { targetSha := 100,
+    prs := [{ number := 7, headSha := 500, authorized := true,
+              labels := { highPrio := false, wip := false, stacked := false, doNotTest := false, other := false },
+              decision := .APPROVED, checks := [{ ctx := 0, required := true, state := some .SUCCESS }, { ctx := 3, required := true, state := none }] }] }
+example : raisesAt nullSnap.prs = some 0 := by decide
+example : (step true (run true init plain).1 (.github nullSnap)).1.githubChanged = true := by decide +kernel
+example : ((step true (run true init plain).1 (.github nullSnap)).1.prs.map (·.statuses)) = ((run true init plain).1.prs.map (·.statuses)) := by
+  decide +kernel
 -- the witness history is well-formed and left (old code) PR 1 in build_state success with the running batch 2
 example : ∀ e ∈ witness, e.wf := by decide
 example : ((run false init witness).1.prs.map fun p => (p.number, p.buildState, p.batch)) =
